@@ -219,7 +219,15 @@ def r2d(ctx):
     c14.r4_token_wins(ctx, "C15.R2d")
 
 
-RULES = [("C15.R1", r1_results_page), ("C15.R2a", r2a), ("C15.R2b", r2b), ("C15.R2c", r2c), ("C15.R2d", r2d)]
+def r2e(ctx):
+    # the first page's scan parameters are decoded by from_map exactly as sent (adversary change C15-H made from_map guess the type of
+    # flattened members, so `?prefix=10` could not start a scan).  This is C09.R2.
+    from . import c09
+    from .lib_c01 import Renamed
+    c09.r2_primitive_table(Renamed(ctx, "C15.R2e", "the scan parameters of a first-page request are decoded by the map deserialiser as the declared types from the text as sent"))
+
+
+RULES = [("C15.R1", r1_results_page), ("C15.R2a", r2a), ("C15.R2b", r2b), ("C15.R2c", r2c), ("C15.R2d", r2d), ("C15.R2e", r2e)]
 
 PG = "dropshot/src/pagination.rs"
 _BUILD = "        Ok(ResultsPage { next_page, items })"
@@ -301,3 +309,4 @@ SELFTEST = [
 LEVEL_TEXT += (" The last item and the test of its existence are found by role: `items.last()` tested as an Option, or the slice pattern `[.., x]` on items (element at constant index 1 from the end, "
                "read after the pattern's `len >= 1` test; lib_c14.emptiness_tests / indexed_reads); any other element accessor (call or projection) is reported.")
 LEVEL_TEXT += " Also (R2d = C14.R4): a presented token is looked up in the owned query map and is the only thing consulted when present."
+LEVEL_TEXT += " Also (R2e = C09.R2): first-page scan parameters are decoded by from_map from the text as sent."
